@@ -230,6 +230,18 @@ Definition c_add (c : coll) (w : writer) (d : doc) (now : Z) : coll * writer * a
   | CUnc u => let '(u', r) := uc_add u d in (CUnc u', w, r)
   end.
 
+(* Add of an input that cannot be read as a document: every kind refuses it
+   before touching its state, except that the streaming collector performs its
+   flush-before-add at capacity first (the wrapped collector then rejects the
+   input); RCount stands for "rejected" here *)
+Definition c_add_bad (c : coll) (w : writer) : coll * writer * ares :=
+  match c with
+  | CStream s =>
+      let '(s1, w1, ok) := if sc_max s <=? sc_count s then sc_flush s w else (s, w, true) in
+      (CStream s1, w1, if ok then RCount else RFlush)
+  | _ => (c, w, RCount)
+  end.
+
 Definition c_resolve (c : coll) : option outp :=
   let ob o := match o with Some x => Some (OFtdc x) | None => None end in
   match c with
@@ -282,7 +294,7 @@ Definition c_flush (c : coll) (w : writer) : coll * writer * bool :=
 
 (* ---- operation histories ---- *)
 Inductive op :=
-| OAdd (d : doc) (now : Z) | OResolve | OReset | OFlush | OSetMeta (m : option doc) | OInfo.
+| OAdd (d : doc) (now : Z) | OAddBad | OResolve | OReset | OFlush | OSetMeta (m : option doc) | OInfo.
 
 Inductive obs :=
 | BAdd (r : ares) | BResolve (o : option outp) | BReset | BFlush (ok : bool) | BSetMeta | BInfo (m s : Z).
@@ -291,6 +303,7 @@ Definition step (st : coll * writer) (o : op) : (coll * writer) * obs :=
   let '(c, w) := st in
   match o with
   | OAdd d now => let '(c', w', r) := c_add c w d now in ((c', w'), BAdd r)
+  | OAddBad => let '(c', w', r) := c_add_bad c w in ((c', w'), BAdd r)
   | OResolve => ((c, w), BResolve (c_resolve c))
   | OReset => ((c_reset c, w), BReset)
   | OFlush => let '(c', w', ok) := c_flush c w in ((c', w'), BFlush ok)
